@@ -170,7 +170,8 @@ try {
     secp256k1_keypair keypair;
     bech32_hrp = ca.m.count('p') ? ca.m['p'] : DEFAULT_ADDR_PREFIX;
     // BIP173: the human readable part is 1..83 characters in the range 33..126; the encoder only takes lower case
-    if (bech32_hrp.empty() || bech32_hrp.size() > 83) abort("invalid address prefix: must be 1 to 83 characters");
+    // a taproot address is <prefix> 1 <version + 52 data characters> <6 checksum characters>, and a bech32(m) string has at most 90 characters
+    if (bech32_hrp.empty() || bech32_hrp.size() > 30) abort("invalid address prefix: must be 1 to 30 characters (the address may not be longer than 90)");
     for (char c : bech32_hrp) {
         if (c < 33 || c > 126 || (c >= 'A' && c <= 'Z')) abort("invalid address prefix '%s': only lower case printable ASCII (no spaces) is allowed", bech32_hrp.c_str());
     }
